@@ -72,6 +72,10 @@ def run_call(spec):
         from sqlglot.optimizer.simplify import simplify
 
         return simplify(sqlglot.parse_one(spec[2]), constant_propagation=bool(spec[3]), coalesce_simplification=bool(spec[3])).sql()
+    if kind == "simplify_d":
+        from sqlglot.optimizer.simplify import simplify
+
+        return simplify(sqlglot.parse_one(spec[2], read=spec[3] or None), dialect=spec[3] or None).sql(spec[3] or None)
     if kind == "simplify_typed":
         from sqlglot.optimizer.annotate_types import annotate_types
         from sqlglot.optimizer.qualify import qualify
